@@ -28,6 +28,7 @@ CONSTANTS
   WPropose = 6
   WCommit = 80
   WApp = 15
+  LateBias = 3
   WStore = 10
 INVARIANT EmitAtDepth
 CHECK_DEADLOCK FALSE
